@@ -68,8 +68,10 @@ def sample_q(sys, rng, B, *, qmax=1.0, inside_limits=True, margin=0.05,
       a, b = -qmax, qmax
       if inside_limits and np.isfinite(lo[di + k]):
         w = hi[di + k] - lo[di + k]
-        a = max(a, lo[di + k] + margin * w)
-        b = min(b, hi[di + k] - margin * w)
+        la, lb = lo[di + k] + margin * w, hi[di + k] - margin * w
+        a, b = max(a, la), min(b, lb)
+        if a >= b:            # range does not meet [-qmax, qmax]: stay inside it
+          a, b = la, lb
       q[:, qi + k] = rng.uniform(a, b, B)
   return q
 
